@@ -233,9 +233,10 @@ def _iset(xs):
     return "{" + ",".join(str(x) for x in xs) + "}"
 
 
-def conn_consts(ids, dsizes, wuds, iws, hwrites, steps, noise=None, maxs=2):
+def conn_consts(ids, dsizes, wuds, iws, hwrites, steps, noise=None, maxs=2, cls=(0, U)):
+    # CLS: content-lengths a SYN_STREAM without FIN declares (the spec adds "none declared")
     d = {"IDS": _iset(ids), "MAXS": maxs, "DSIZES": _iset(dsizes), "WUDS": _iset(wuds), "IWS": _iset(iws),
-         "HWRITES": _iset(hwrites), "STEPS": steps}
+         "HWRITES": _iset(hwrites), "STEPS": steps, "CLS": _iset(cls)}
     if noise is not None:
         d["NOISE"] = noise
     return d
